@@ -16,7 +16,8 @@ EXPLANATION = (
     'interprocedural lockset. R9.4: every Cache method that mutates a '
     'guarded map is only called on the mutable (new) cache. Decides absence '
     'of deadlock and of data races on guarded state; equivalence with a '
-    'sequential run (atomicity across critical sections) is not decided.')
+    'sequential run (atomicity across critical sections) is not decided.'
+    " R9.5: shared mkdir tolerates a concurrent creator (handler that swallows FileExistsError / exist_ok). R9.6: whenever a reservation is counted the caller's created directories are consulted before the loop is left, so a concurrently created directory keeps an owner. R9.7: guarded counters are read and incremented in one critical section. R9.8: a rejected call releases its directory reservation (typestate of C14 on _build_file). R9.9: the claim/run/finish protocol of C08 (R8.2, R8.3).")
 
 
 def r9_1(ctx, rc):
